@@ -23,6 +23,7 @@ type SelfTestReport struct {
 	IsolationRuns        int      `json:"isolation_runs_compared"`
 	ConformanceScenarios int      `json:"conformance_scenarios_vs_plain_build"`
 	ConformanceSkipped   string   `json:"conformance_skipped,omitempty"`
+	SUTNondeterminism    int      `json:"nondeterminism_of_the_program_seen_by_self_test,omitempty"`
 	Notes                []string `json:"notes,omitempty"`
 }
 
@@ -36,6 +37,24 @@ func (l *lcgSrc) Int(label string, lo, hi int) int {
 	}
 	l.x = l.x*6364136223846793005 + 1442695040888963407
 	return lo + int((l.x>>33)%uint64(hi-lo+1))
+}
+
+// selfTestFail: a digest mismatch between two executions of one configuration.
+// For every property but C13 this is harness trouble (exit 2). For C13 the
+// property under test IS determinism of the program: two different histories
+// of one configuration are its violation, which the workers then find and
+// report through their "identity-again" / "fresh-process:identity" runs; the
+// self-test only notes what it saw.
+func selfTestFail(id string, rep *SelfTestReport, c sim.Config, format string, a ...interface{}) {
+	if id == "C13" {
+		rep.SUTNondeterminism++
+		if len(rep.Notes) < 5 {
+			rep.Notes = append(rep.Notes, "two executions of one configuration differ (left to the C13 oracle): "+fmt.Sprintf(format, a...))
+		}
+		return
+	}
+	dumpCfg(c)
+	fatal2(format, a...)
 }
 
 func selfTests(id, tier string, seed int64, self string) *SelfTestReport {
@@ -77,8 +96,7 @@ func selfTests(id, tier string, seed int64, self string) *SelfTestReport {
 	}
 	for i, c := range cfgs {
 		if d := digestResults([]sim.Result{Exec(c)}); d != d1[i] {
-			dumpCfg(c)
-			fatal2("self-test determinism: config %d differs between two in-process runs", i)
+			selfTestFail(id, rep, c, "self-test determinism: config %d differs between two in-process runs", i)
 		}
 		rep.DeterminismRuns++
 	}
@@ -86,8 +104,7 @@ func selfTests(id, tier string, seed int64, self string) *SelfTestReport {
 	// generated reset would show as an order dependence)
 	for i := len(cfgs) - 1; i >= 0; i-- {
 		if d := digestResults([]sim.Result{Exec(cfgs[i])}); d != d1[i] {
-			dumpCfg(cfgs[i])
-			fatal2("self-test isolation: config %d depends on what ran before it", i)
+			selfTestFail(id, rep, cfgs[i], "self-test isolation: config %d depends on what ran before it", i)
 		}
 		rep.IsolationRuns++
 	}
@@ -113,8 +130,7 @@ func selfTests(id, tier string, seed int64, self string) *SelfTestReport {
 				fatal2("self-test fresh process: %v", err)
 			}
 			if d := digestResults([]sim.Result{r}); d != d1[k] {
-				dumpCfg(cfgs[k])
-				fatal2("self-test determinism: config %d differs in a fresh process (GOMAXPROCS=%d)", k, gmp)
+				selfTestFail(id, rep, cfgs[k], "self-test determinism: config %d differs in a fresh process (GOMAXPROCS=%d)", k, gmp)
 			}
 			rep.FreshProcessRuns++
 		}
